@@ -605,6 +605,31 @@ def same_id_pairs(rec: Rec, dsize: int):
     NODE_REGISTRY.clear()
 
 
+def deep_detach(rec: Rec, dsize: int):
+    """detach() / lookup on a tree 3000 levels deep (beyond the interpreter's recursion limit)."""
+    config.ID_DIGEST_SIZE = dsize
+    NODE_REGISTRY.clear()
+    rec.count("transitions"); rec.count("traces"); rec.count("evaluations"); rec.count("states")
+    x = RL(1)
+    nodes = [x]
+    for _ in range(3000):
+        x = RP(c=x)
+        nodes.append(x)
+    case = {"digest": dsize, "scenario": "deep-chain"}
+    if any(ASTNode.get_any(n.id) is not n for n in nodes[::97]):
+        rec.violation("C03|deep-chain|lookup", case, "a registered node of a deep chain is not returned under its id")
+    try:
+        nodes[-1].detach()
+    except RecursionError:
+        rec.violation("C03|deep-chain|recursion", case, "detach() of a chain of depth 3000 raised RecursionError")
+        NODE_REGISTRY.clear()
+        return
+    if any(ASTNode.get_any(n.id) is not None for n in nodes):
+        rec.violation("C03|deep-chain|lookup", case, "a node of a detached deep chain is still returned by lookup")
+    rec.outcome("deep-chain")
+    NODE_REGISTRY.clear()
+
+
 def plan(tier, seed):
     cfgs = []
     for ds in DIGESTS[tier]:
@@ -618,6 +643,8 @@ def run_shard(cfg):
     explore(m, cfg["depth"], rec, cfg, procs=cfg.get("procs", 1))
     many_twins(rec, cfg["digest"])
     same_id_pairs(rec, cfg["digest"])
+    if cfg["digest"] >= 8:
+        deep_detach(rec, cfg["digest"])
     rec.bound["digest_sizes"] = sorted(set(rec.bound.get("digest_sizes", [])) | {cfg["digest"]})
     rec.extra["colliding_values"] = {str(cfg["digest"]): list(m.vals)}
     return rec.result()
@@ -625,6 +652,9 @@ def run_shard(cfg):
 
 def replay(case, cfg):
     rec = Rec(cfg)
+    if case.get("scenario") == "deep-chain":
+        deep_detach(rec, int(case["digest"]))
+        return rec.result()["violations"]
     if case.get("scenario") == "same-id-pair":
         same_id_pairs(rec, int(case["digest"]))
         return rec.result()["violations"]
